@@ -761,6 +761,10 @@ def main(argv=None):
     # --- ownership: heap model vs MemoryStorage, oracle on all back ends
     c01_own.ownership_check(ck, "C01own", have_driver=have_own_driver, n_random=(60 if quick else 3000))
 
+    # --- the JSON data path: Model/Json.v, Props/C01Json.v vs json.dumps / json.loads / raw datastr cells (harness/jsonmodel.py)
+    from . import jsonmodel
+    jsonmodel.json_check(ck)
+
     ck.assumptions += [
         "store models: exact integer microseconds (identity time codec), data as labels (one per canonical JSON text, {} = 0); "
         "the float/text codecs are separate models (Model/Codec.v) compared on the raw cells of the SQLite files",
